@@ -1134,7 +1134,14 @@ func (g *gen) methodValues() {
 	g.Decls = append(g.Decls, fmt.Sprintf("func (t %s) Sum(xs ...int) int {\n\tn := %s\n\tfor _, x := range xs {\n\t\tn += x\n\t}\n\treturn n\n}", T, field))
 	// creator: returns method values bound to a local variable
 	mk := g.Top("mm")
-	g.Decls = append(g.Decls, fmt.Sprintf("func %s() (func(int) int, func(), func() int) {\n\tt := %s\n\tget, inc := t.Get, t.Inc\n\treturn get, inc, func() int { return %s }\n}", mk, litv, field))
+	incOf := func(v string) string { return v + ".Inc" }
+	if recvKind == "int" && g.no("F-C06-8") {
+		// F-C06-8: x.M() / x.M with a pointer-receiver M on a variable of a named type
+		// of an int-slot kind: the variable is not addressed. Go through an explicit pointer.
+		g.skipped("F-C06-8")
+		incOf = func(v string) string { return "(&" + v + ").Inc" }
+	}
+	g.Decls = append(g.Decls, fmt.Sprintf("func %s() (func(int) int, func(), func() int) {\n\tt := %s\n\tget, inc := t.Get, %s\n\treturn get, inc, func() int { return %s }\n}", mk, litv, incOf("t"), field))
 	a, b, c := g.Local("get"), g.Local("inc"), g.Local("peek")
 	g.create = append(g.create, fmt.Sprintf("%s, %s, %s := %s()\n", a, b, c, mk))
 	// inc() works on the variable (pointer receiver), get was bound to a copy (value receiver)
@@ -1164,7 +1171,11 @@ func (g *gen) methodValues() {
 	// (the method values m, m2 are not called any more below)
 	g.Tag("method-value:pointer-receiver")
 	pi := g.Local("pinc")
-	fmt.Fprintf(&s, "%s := %s.Inc\n%s()\n%s()\nrec.E(%d, %s.Get(0))\n", pi, t, pi, pi, g.Ev(), t)
+	fmt.Fprintf(&s, "%s := %s\n%s()\n%s()\nrec.E(%d, %s.Get(0))\n", pi, incOf(t), pi, pi, g.Ev(), t)
+	if !(recvKind == "int" && g.no("F-C06-8")) {
+		g.Tag("pointer-receiver-call-on-variable")
+		fmt.Fprintf(&s, "%s.Inc()\nrec.E(%d, %s.Get(0))\n", t, g.Ev(), t)
+	}
 	g.Tag("method-expression")
 	fmt.Fprintf(&s, "rec.E(%d, %s.Get(%s, 3), %s.Sum(%s, 4, 5))\n", g.Ev(), T, t, T, t)
 	if g.no("F-C06-4") {
